@@ -114,7 +114,10 @@ def register_tfr2(R):
     # O1: every call on the target (except the read-only wasSuccessful) happens while this thread holds the semaphore
     # O3: no acquire while held
     LOCKED = dict(event=True, returns="any", exsures=["True"], total=True, requires=[HELD])
-    R.shape("LockedResult", __getattr__=LOCKED, wasSuccessful=dict(event=True, returns="any", exsures=["True"]))
+    # stop_failed(t): this target's stop() raises (a fixed property of the target): lets callers tell a failing stop() apart
+    R.function("stop_failed", ["val"], "bool")
+    R.shape("LockedResult", __getattr__=LOCKED, wasSuccessful=dict(event=True, returns="any", exsures=["True"]),
+            stop=dict(signature="", event=True, returns="any", requires=[HELD], ensures=["not stop_failed(self)"], exsures=["stop_failed(self)"]))
     R.fields_of("LockedResult", shouldStop="any")
     R.shape("Semaphore1", acquire=dict(event=True, returns="any", requires=["not " + HELD]),
             release=dict(event=True, returns="any", requires=[HELD]))
@@ -159,7 +162,7 @@ def register_tfr2(R):
     outcome("addUnexpectedSuccess", dict(T, details="any"), "[test]", "{'details': details}")
     for m in ("stopTestRun", "stop", "done"):
         R.contract(F + m, props=["C12"] + (["C04"] if m == "stop" else []), context=CTX, requires=["not " + HELD, "self.result is not self.semaphore"], frame_hist=True,
-                   modifies=["hist(self.result)", "hist(self.semaphore)"], exsures=[SEM_OK],
+                   modifies=["hist(self.result)", "hist(self.semaphore)"], exsures=[SEM_OK] + (["stop_failed(self.result)"] if m == "stop" else []),
                    ensures=[SEM_OK, "hist(self.result) == snoc(old(hist(self.result)), call('%s', [], {}))" % m])
     R.contract(F + "_get_shouldStop", props=["C12", "C04"], context=CTX, requires=["not " + HELD, "self.result is not self.semaphore"], frame_hist=True,
                modifies=["hist(self.semaphore)"], returns="any",
